@@ -54,6 +54,9 @@ type Cfg struct {
 	NParts         map[string]int `json:"nparts"`
 	BatchTimeoutMs int            `json:"batchTimeoutMs"`
 	Compression    int            `json:"compression"`
+	Net            string         `json:"net,omitempty"`            // "real": kafka.Transport + fake cluster instead of the scripted RoundTripper
+	ProduceVersion int            `json:"produceVersion,omitempty"` // real mode: highest Produce version the broker offers
+	WriteTimeoutMs int            `json:"writeTimeoutMs,omitempty"`
 }
 
 type Script struct {
